@@ -57,9 +57,39 @@ def run(task):
         return out
     if op == "program":
         from impl import c12prog
+        import importlib
 
-        r = c12prog.run_program(task["name"], task["argv"])
+        # observe what the program hands to its sampler: per input record (locus name), the number of haplotype alleles
+        # every sampler object was built with (call: one per sample; call-pedigree: one per record)
+        sampled = {}
+        cur = {"name": None}
+        undo = []
+        if task["name"] in ("call", "call-pedigree"):
+            mod = importlib.import_module(c12prog._MODULES[task["name"]])
+            cls_name = "CallingMCMC" if task["name"] == "call" else "PedigreeCallingMCMC"
+            orig_cls = getattr(mod, cls_name)
+            orig_m = mod.program.call_sample_genotypes
+
+            def per_locus(self, data, _o=orig_m):
+                cur["name"] = str(data.locus.name)
+                return _o(self, data)
+
+            def spy(*a, **k):
+                h = k.get("haplotypes")
+                if h is not None and cur["name"] is not None:
+                    sampled.setdefault(cur["name"], []).append(int(len(h)))
+                return orig_cls(*a, **k)
+
+            mod.program.call_sample_genotypes = per_locus
+            setattr(mod, cls_name, spy)
+            undo = [(mod.program, "call_sample_genotypes", orig_m), (mod, cls_name, orig_cls)]
+        try:
+            r = c12prog.run_program(task["name"], task["argv"])
+        finally:
+            for o, n, v in undo:
+                setattr(o, n, v)
         r.pop("partial", None)
+        r["sampled"] = sampled
         return r
     if op == "cli":
         from impl import c12prog
